@@ -93,6 +93,8 @@ func VerifC12_new_round() {
 		ndAssert(nd.DisputeRound == round+1 && nd.DisputeStatus == types.Voting && nd.Open, "new-round-is-in-voting")
 		ndAssert(nd.DisputeStartTime.Equal(now) && nd.DisputeEndTime.Equal(now.Add(72*time.Hour)), "new-round-has-a-three-day-deadline")
 		ndAssert(nd.SlashAmount.Equal(S) && string(nd.HashId) == string(hash[:]) && nd.DisputeCategory == cat, "new-round-is-about-the-same-report")
+		// voting power in every round is taken as of the dispute's block: the new round keeps it
+		ndAssert(nd.BlockNumber == d.BlockNumber && nd.InitialEvidence.BlockNumber == report.BlockNumber, "new-round-keeps-the-dispute's-block")
 		ndAssert(nd.BurnAmount.Equal(burn0.Add(roundFee)) && nd.FeeTotal.Equal(fee0.Add(roundFee)), "round-fee-is-added-to-fees-and-burn")
 		ndAssert(len(nd.PrevDisputeIds) == len(d.PrevDisputeIds)+1 && nd.PrevDisputeIds[len(nd.PrevDisputeIds)-1] == newID, "history-of-rounds-is-extended")
 		v, verr := k.Votes.Get(ctx, newID)
